@@ -515,3 +515,99 @@ Definition run_seg_reads (ty : segtype) (maxfrac : Z) (full omit : bool) (planes
                    else vres_id (seg_read_any ty described st sel mode R C th tw ai rs re cs ce)
                  end) reads)
   end.
+
+(* ---------------------------------------------------------------------- *)
+(* combine_segments=True on BINARY / FRACTIONAL segmentations                *)
+(* (_get_pixels_by_seg_frame, sop.py 3510-3578): a zero array of the region  *)
+(* shape, then per selected frame                                            *)
+(*     out[o] = np.maximum(frame[i] * label, out[o])                         *)
+(* after the overlap check `frame[i] > 0 & out[o] > 0 -> RuntimeError`.      *)
+(* np.maximum is commutative/associative, the check symmetric: the result    *)
+(* does not depend on the frame order and is modelled cell-wise on the       *)
+(* regions of the requested segments (one per requested number).             *)
+(* FRACTIONAL: refused unless rescale_fractional; every stored value read    *)
+(* must be 0 or MaximumFractionalValue (ValueError), then value // maxfrac.  *)
+(* (The code interleaves the two refusals frame by frame; the model tests    *)
+(* "not binary" first.  They can only differ on float-valued FRACTIONAL      *)
+(* inputs, which are outside the model: integer inputs store 0 / maxfrac.)   *)
+(* ---------------------------------------------------------------------- *)
+Definition unit_value (ty : segtype) (mf v : Z) : Z :=
+  match ty with Fractional => v / mf | _ => v end.
+
+(* value written for the k-th requested segment: its number, or k + 1 with relabel *)
+Definition labels_of (relabel : bool) (sel : list Z) : list Z :=
+  if relabel then map (fun i => i + 1) (zrange (Z.of_nat (length sel))) else sel.
+
+Definition all_cells (h w : Z) (P : Z -> Z -> bool) : bool :=
+  forallb (fun i => forallb (fun j => P i j) (zrange w)) (zrange h).
+
+Definition count_positive (ty : segtype) (mf : Z) (pl : list (list (list Z))) (i j : Z) : Z :=
+  Z.of_nat (length (filter (fun A => 0 <? unit_value ty mf (cell A i j)) pl)).
+
+Definition label_cell (ty : segtype) (mf : Z) (lp : list (Z * list (list Z))) (i j : Z) : Z :=
+  fold_right (fun p acc => Z.max (unit_value ty mf (cell (snd p) i j) * fst p) acc) 0 lp.
+
+Definition combine_planes (ty : segtype) (mf : Z) (skip : bool) (labels : list Z)
+           (pl : list (list (list Z))) (h w : Z) : res (list (list Z)) :=
+  if match ty with
+     | Fractional => negb (all_cells h w (fun i j =>
+                        forallb (fun A => (cell A i j =? 0) || (cell A i j =? mf)) pl))
+     | _ => false
+     end
+  then Err "ValueError"
+  else if negb skip && negb (all_cells h w (fun i j => count_positive ty mf pl i j <=? 1))
+  then Err "RuntimeError"
+  else Ok (map (fun i => map (fun j => label_cell ty mf (combine labels pl) i j) (zrange w)) (zrange h)).
+
+(* Segmentation.get_total_pixel_matrix(segment_numbers=sel, combine_segments=True,
+   relabel, rescale_fractional, skip_overlap_checks) for BINARY / FRACTIONAL;
+   sel without repetitions (a repeated number is refused by the code in ways
+   that are not modelled) *)
+Definition seg_read_combined (ty : segtype) (mf : Z) (st : list stile) (sel : list Z)
+           (relabel rescale skip : bool) (R C th tw : Z)
+           (ai : bool) (rs re cs ce : option Z) : res (list (list Z)) :=
+  if match ty with Fractional => negb rescale | _ => false end then Err "ValueError"
+  else
+    bind (standardize_rc ai rs re cs ce R C) (fun t =>
+      match t with (s, e, c0, c1) =>
+        if (e - s <? 0) || (c1 - c0 <? 0) then Err "ValueError"
+        else bind (seg_read st sel R C th tw ai rs re cs ce) (fun pl =>
+               combine_planes ty mf skip (labels_of relabel sel) pl (e - s) (c1 - c0))
+      end).
+
+(* one read with its options: (mode, rescale_fractional, skip_overlap_checks) *)
+Definition seg_read_opts (ty : segtype) (mf : Z) (described : list Z) (st : list stile) (sel : list Z)
+           (mode : seg_mode) (rescale skip : bool)
+           (R C th tw : Z) (ai : bool) (rs re cs ce : option Z) : res val :=
+  match ty, mode with
+  | Labelmap, _ | _, Planes => seg_read_any ty described st sel mode R C th tw ai rs re cs ce
+  | _, _ =>
+      if negb (sel_ok described sel) then Err "ValueError"
+      else bind (seg_read_combined ty mf st sel
+                   (match mode with Relabelled => true | _ => false end) rescale skip
+                   R C th tw ai rs re cs ce) (fun a => Ok (vz_list2 a))
+  end.
+
+(* a HISTORY of reads on one object: construct once; every read is a function
+   of the stored frames alone (the model has no state: whether the decoded
+   pixel array has been cached, which reads came before, what the caller did
+   to the arrays returned earlier or to the array passed to the constructor
+   cannot matter), and the stored frames are the same afterwards (last item) *)
+Definition run_seg_hist (ty : segtype) (maxfrac : Z) (full omit : bool) (planes : list plane)
+           (segs described : list Z) (R C th tw : Z)
+           (reads : list (seg_mode * bool * (bool * bool) * list Z * region)) : val :=
+  match stored ty maxfrac full omit planes segs R C th tw with
+  | Err k => VErr k
+  | Ok st =>
+      VL (VZ (Z.of_nat (length st)) ::
+          map (fun rd : seg_mode * bool * (bool * bool) * list Z * region =>
+                 match rd with (mode, via_volume, (rescale, skip), sel, (ai, (rs, re, cs, ce))) =>
+                   if via_volume then
+                     if match sel with [] => true | _ => false end then VErr "ValueError"
+                     else vres_id (vol_region ai rs re cs ce R C
+                                     (seg_read_opts ty maxfrac described st sel mode rescale skip R C th tw))
+                   else vres_id (seg_read_opts ty maxfrac described st sel mode rescale skip
+                                               R C th tw ai rs re cs ce)
+                 end) reads
+          ++ [VB true])
+  end.
